@@ -139,7 +139,10 @@ def classify(step):
     if step["levels"] is not None and step["levels"] != "levels ok":
         out.append(("correspondence:levels:%s" % k, "model of hwloc_connect_levels disagrees with the implementation after `%s`" % call, not wf_bad, False))
     if hist_bad and not (wf_bad or chk_bad):
-        if "identity-attrs-changed" in hc:
+        if "group-depth-stale" in hc:
+            # outside the C01 clauses, but observable (hwloc_get_type_depth_with_attr): Group depths not renumbered
+            key = "restrict-stale-group-depth" if k == "restrict" else "group-depth-stale:%s" % k
+        elif "identity-attrs-changed" in hc:
             key = "identity-attrs-changed:%s" % k
         elif k == "group" and "object-vanished-without-restrict" in hc:
             key = "group-merge-replaces-object-identity" if replaced_larger_only else "group-merge-replaces-group-of-not-larger-kind"
